@@ -127,6 +127,8 @@ void CONmtReset(CO_NMT *nmt, CO_NMT_RESET type)
         COCSdoInit(nmt->Node->CSdo, nmt->Node);
 #endif
         COIfCanReset(&nmt->Node->If);
+        /* a stored bit rate gets active with the reset */
+        COIfCanEnable(&nmt->Node->If, nmt->Node->Baudrate);
         COEmcyReset(&nmt->Node->Emcy, 1);
         COSyncInit(&nmt->Node->Sync, nmt->Node);
 
